@@ -47,6 +47,8 @@ package asset
 //@ ensures[C04] forall k :: 0 <= k && k < len(result) ==> hor(result, k) <= hor(snapshots, k)
 
 // ---- InMemoryRepository: the abstract view is the map r.storage itself: name -> ordered list of snapshots (C10) ----
+// the abstract state of an in-memory repository is its storage map
+//@ absfn InMemoryRepository :: self.storage
 //@ func NewInMemoryRepository
 //@ ensures[C10] forall n str :: !has(result.storage, n)
 
@@ -73,7 +75,7 @@ package asset
 
 // cntsince(S,d,k): how many of S[0..k-1] are dated on or after d: the position of S[k] in the filtered result
 //@ func InMemoryRepository.GetSince
-//@ ensures[C10] !has(r.storage, name) ==> result1 != nil
+//@ ensures[C10] !has(r.storage, name) ==> result1 != nil && len(result0) == 0
 //@ ensures[C10] has(r.storage, name) ==> result1 == nil && len(result0) == cntsince(r.storage[name], date, len(r.storage[name])) && closed(result0)
 //@ ensures[C10] has(r.storage, name) ==> (forall k :: 0 <= k && k < len(r.storage[name]) ==> (r.storage[name][k].Date >= date ==> result0[cntsince(r.storage[name], date, k)] == r.storage[name][k]))
 //@ use fcount_since(arg(Filter, 0, 1), r.storage[name], date)
@@ -105,26 +107,30 @@ package asset
 
 // ---- interface Repository over the ghost abstract state view(self): asset name -> ordered snapshots (C10, C12) ------
 //@ func interface Repository.LastDate
-//@ ensures[C10] (result1 == nil) == (has(view(self), p0) && len(view(self)[p0]) > 0)
-//@ ensures[C10] result1 == nil ==> result0 == view(self)[p0][len(view(self)[p0]) - 1].Date
+//@ attr refinement = asset.InMemoryRepository
+//@ ensures[C10,C12] (result1 == nil) == (has(view(self), p0) && len(view(self)[p0]) > 0)
+//@ ensures[C10,C12] result1 == nil ==> result0 == view(self)[p0][len(view(self)[p0]) - 1].Date
 
 //@ func interface Repository.GetSince
-//@ ensures[C10] result1 == nil ==> has(view(self), p0) && consumed(result0) == 0 && closed(result0) && len(result0) == cntsince(view(self)[p0], p1, len(view(self)[p0]))
-//@ ensures[C10] result1 == nil ==> (forall k :: 0 <= k && k < len(view(self)[p0]) ==> (view(self)[p0][k].Date >= p1 ==> result0[cntsince(view(self)[p0], p1, k)] == view(self)[p0][k]))
-//@ ensures[C10] result1 != nil ==> len(result0) == 0
+//@ attr refinement = asset.InMemoryRepository
+//@ ensures[C10,C12] result1 == nil ==> has(view(self), p0) && consumed(result0) == 0 && closed(result0) && len(result0) == cntsince(view(self)[p0], p1, len(view(self)[p0]))
+//@ ensures[C10,C12] result1 == nil ==> (forall k :: 0 <= k && k < len(view(self)[p0]) ==> (view(self)[p0][k].Date >= p1 ==> result0[cntsince(view(self)[p0], p1, k)] == view(self)[p0][k]))
+//@ ensures[C10,C12] result1 != nil ==> len(result0) == 0
 // data assumption: repositories hold valid price data (positive closes); the outcome simulation relies on it
-//@ ensures result1 == nil ==> (forall k :: 0 <= k && k < len(result0) ==> result0[k].Close > 0)
+//@ ensures "data-assumption" result1 == nil ==> (forall k :: 0 <= k && k < len(result0) ==> result0[k].Close > 0)
 
 //@ func interface Repository.Append
+//@ attr refinement = asset.InMemoryRepository
 //@ requires consumed(p1) == 0
 //@ modifies self
-//@ ensures[C10] forall n str :: n != p0 ==> has(view(self), n) == old(has(view(self), n)) && sameslice(view(self)[n], old(view(self)[n]))
-//@ ensures[C10] result == nil ==> has(view(self), p0) && consumed(p1) == len(p1) && len(view(self)[p0]) == old(len(view(self)[p0])) + len(p1)
-//@ ensures[C10] result == nil ==> (forall k :: 0 <= k && k < old(len(view(self)[p0])) ==> view(self)[p0][k] == old(view(self)[p0][k]))
-//@ ensures[C10] result == nil ==> (forall k :: 0 <= k && k < len(p1) ==> view(self)[p0][old(len(view(self)[p0])) + k] == p1[k])
+//@ ensures[C10,C12] forall n str :: n != p0 ==> has(view(self), n) == old(has(view(self), n)) && sameslice(view(self)[n], old(view(self)[n]))
+//@ ensures[C10,C12] result == nil ==> has(view(self), p0) && consumed(p1) == len(p1) && len(view(self)[p0]) == old(len(view(self)[p0])) + len(p1)
+//@ ensures[C10,C12] result == nil ==> (forall k :: 0 <= k && k < old(len(view(self)[p0])) ==> view(self)[p0][k] == old(view(self)[p0][k]))
+//@ ensures[C10,C12] result == nil ==> (forall k :: 0 <= k && k < len(p1) ==> view(self)[p0][old(len(view(self)[p0])) + k] == p1[k])
 
 //@ func interface Repository.Assets
-//@ ensures[C10] result1 == nil ==> len(result0) == len(view(self)) && (forall j :: 0 <= j && j < len(result0) ==> has(view(self), result0[j]))
+//@ attr refinement = asset.InMemoryRepository
+//@ ensures[C10,C12] result1 == nil ==> len(result0) == len(view(self)) && (forall j :: 0 <= j && j < len(result0) ==> has(view(self), result0[j]))
 
 // ---- Sync: every requested asset gets exactly the source's snapshots dated after the target's last date (C12) --------
 // start date of asset name, decided on the target's state at the beginning of the run
